@@ -11,13 +11,18 @@
                         span fields as a BTreeMap (sorted, last write wins), a later `record` on the tree level and on
                         the level of the stored string (parse - merge - re-serialise);
     - [event_record]    the object written for one event, in the code's key order, for every option combination;
-    - [run]             a history of span creations / enters / exits / records / events  |->  the lines written.
+    - [life_lines]      the records fmt_subscriber.rs writes at the span-lifecycle points (FmtSpan NEW / ENTER / EXIT / CLOSE,
+                        `with_event_from_span!`): an event with the SPAN's metadata, the span itself as explicit parent and
+                        the fields message (+ time.busy, time.idle at close when a timer is configured);
+    - [run]             a history of span creations / enters / exits / records / closes / events  |->  the lines written.
 
     Two switches ([cfg]) select between the code as it is and an anticipated repair; the value used for /repo comes
     from the translator (TVGen.Gen_json), so the model follows the source:
       fx10 = false  the `spans` list is built from lookup_current() (finding F10); true: from the event's own parent
       fx141 = false  add_fields re-parses into BTreeMap<&str,_>: a stored key that needs a JSON escape makes from_str fail and
-                    the record is silently dropped (finding F141); true: owned keys. *)
+                    the record is silently dropped (finding F141); true: owned keys.
+    A third component is the BUILD configuration: feat_log = tracing-subscriber's (default) cargo feature `tracing-log`,
+    under which JsonVisitor::record_debug skips span fields whose name starts with `log.` (tracing-log's metadata). *)
 From Coq Require Import String Ascii NArith ZArith Bool List.
 From TVGen Require Import Gen_json.
 Import ListNotations.
@@ -66,6 +71,13 @@ Definition escape_byte (b : N) : bytes :=
   else if b <? 32 then [92; 117; 48; 48; hexd (b / 16); hexd (b mod 16)]   (* \u00XX *)
   else [b].                                (* everything else verbatim: DEL, C1, U+2028/2029, astral (UTF-8 bytes) *)
 Definition render_string (s : bytes) : bytes := 34 :: flat_map escape_byte s ++ [34].
+(** the same function read off serde_json's ESCAPE table (TVGen.Gen_json.gen_escape_table: 0 = not escaped, 117 = the
+    six-byte \u00XX form, any other entry = backslash + that letter); proved equal to [escape_byte] on all 256 bytes *)
+Definition escape_from_table (t : list nat) (b : N) : bytes :=
+  match nth (N.to_nat b) t 0%nat with
+  | O => [b]
+  | c => if Nat.eqb c 117 then [92; 117; 48; 48; hexd (b / 16); hexd (b mod 16)] else [92; N.of_nat c]
+  end.
 
 (** * Floats.  serde_json prints the shortest round-trip text; that algorithm is NOT modelled.  The model prints the
     EXACT decimal expansion of the double (a valid JSON number denoting the same real), so that an independent
@@ -347,6 +359,10 @@ Definition model_jsonvisitor_methods : list string :=
 Definition model_jsonvisitor_strip_raw : list string := ["record_debug"].
 Definition model_serdemap_methods : list string :=
   ["record_bool"; "record_debug"; "record_f64"; "record_i64"; "record_str"; "record_u64"].
+Definition model_jsonvisitor_log_skip : list string := ["record_debug"].
+Definition model_lifecycle : list string :=
+  ["on_new_span:message=new"; "on_enter:message=enter"; "on_exit:message=exit";
+   "on_close:message=close,time.busy,time.idle"; "on_close:message=close"].
 Local Close Scope string_scope.
 
 (** * Span fields: BTreeMap<&str, Value> *)
@@ -385,8 +401,17 @@ Definition visit_span (m : smap) (vals : fields) : smap :=
 
 Definition needs_escape (k : bytes) : bool := existsb (fun b => (b <? 32) || (b =? 34) || (b =? 92)) k.
 
-Record cfg := { fx10 : bool; fx141 : bool }.
-Definition repo_cfg : cfg := {| fx10 := gen_f10_fixed; fx141 := gen_f141_fixed |}.
+Record cfg := { fx10 : bool; fx141 : bool; feat_log : bool }.
+Definition repo_cfg_of (lg : bool) : cfg := {| fx10 := gen_f10_fixed; fx141 := gen_f141_fixed; feat_log := lg |}.
+Definition repo_cfg : cfg := repo_cfg_of false.
+
+(** cfg(feature = "tracing-log"): `name if name.starts_with("log.") => ()` is the FIRST arm of JsonVisitor::record_debug
+    (before the r# arm), so it looks at the raw field name and only at values that arrive through record_debug. *)
+Definition has_prefix (p k : bytes) : bool := match strip_prefix p k with Some _ => true | None => false end.
+Definition log_skipped (c : cfg) (kv : bytes * value) : bool :=
+  feat_log c && via_debug (snd kv) && has_prefix (bs "log.") (fst kv).
+(** the writes of one ValueSet that reach the span's map *)
+Definition eff (c : cfg) (vals : fields) : fields := filter (fun kv => negb (log_skipped c kv)) vals.
 
 (** JsonFields::add_fields on the tree level.  The stored string is never empty (on_new_span stores at least an empty object), so
     the parse path is always taken; with borrowed keys (fx141 = false) it fails when a stored key contains an escape,
@@ -418,7 +443,12 @@ Fixpoint last_write (k : bytes) (ws : fields) (acc : option json) : option json 
 
 (** * Spans, scope, events *)
 Definition name_key : bytes := bs "name".
-Record span_st := { sp_name : bytes; sp_parent : option N; sp_fields : smap }.
+(** a span callsite's metadata, as far as the formatter reads it (name for the span object; the rest for the lifecycle records) *)
+Record smeta := { sm_name : bytes; sm_level : N; sm_target : bytes; sm_file : option bytes; sm_line : option N }.
+Definition meta_named (name : bytes) : smeta :=
+  {| sm_name := name; sm_level := 2; sm_target := []; sm_file := None; sm_line := None |}.
+Record span_st := { sp_meta : smeta; sp_parent : option N; sp_fields : smap }.
+Definition sp_name (s : span_st) : bytes := sm_name (sp_meta s).
 
 (** SerializableSpan: the stored object's entries (serde_json::Map = BTreeMap order), then the key name. *)
 Definition span_obj (s : span_st) : json := JObj (sp_fields s ++ [(name_key, JStr (sp_name s))]).
@@ -441,7 +471,8 @@ Record event := {
 Record opts := {
   o_flatten : bool; o_cur : bool; o_list : bool;
   o_ts : option bytes;          (* display_timestamp + the timer's text; None = without_time() *)
-  o_level : bool; o_target : bool; o_file : bool; o_line : bool; o_tname : bool; o_tid : bool
+  o_level : bool; o_target : bool; o_file : bool; o_line : bool; o_tname : bool; o_tid : bool;
+  o_new : bool; o_enter : bool; o_exit : bool; o_close : bool      (* with_span_events(FmtSpan::NEW | ENTER | EXIT | CLOSE) *)
 }.
 Record env := { thread_name : option bytes; thread_id : bytes (* Debug text of ThreadId *) }.
 
@@ -530,13 +561,37 @@ Definition event_entries (c : cfg) (o : opts) (en : env) (st : state) (e : event
 Definition event_record (c : cfg) (o : opts) (en : env) (st : state) (e : event) (p : pspec) : json :=
   JObj (event_entries c o en st e p).
 
+(** * Span-lifecycle records (fmt_subscriber.rs on_new_span / on_enter / on_exit / on_close, `with_event_from_span!`)
+    The event is built from the SPAN's metadata (level, target, file, line), carries the span as its explicit parent and
+    the fields message = "new" | "enter" | "exit" | "close"; at close, when timings are kept (a timer is configured:
+    `without_time()` also switches fmt_span's timing off), also time.busy and time.idle (Display text of the durations:
+    real-time, supplied by the history). *)
+Definition life_event (s : span_st) (msg : string) (timing : option (bytes * bytes)) : event :=
+  {| ev_level := sm_level (sp_meta s); ev_target := sm_target (sp_meta s);
+     ev_file := sm_file (sp_meta s); ev_line := sm_line (sp_meta s);
+     ev_vals := (bs "message", VStr (bs msg))
+                :: match timing with
+                   | Some (busy, idle) => [(bs "time.busy", VText busy); (bs "time.idle", VText idle)]
+                   | None => []
+                   end |}.
+Definition life_lines (c : cfg) (o : opts) (en : env) (st : state) (i : N) (on : bool) (msg : string)
+                      (timing : option (bytes * bytes)) : list bytes :=
+  if on then
+    match find_span i (spans st) with
+    | Some s => [render_line (event_record c o en st (life_event s msg timing) (PExplicit i))]
+    | None => []                                   (* `expect("Span not found")`: unreachable for ids of live spans *)
+    end
+  else [].
+Definition has_timer (o : opts) : bool := match o_ts o with Some _ => true | None => false end.
+
 (** * Histories *)
 Inductive op :=
-| ONew (i : N) (name : bytes) (p : pspec) (vals : fields)
+| ONew (i : N) (m : smeta) (p : pspec) (vals : fields)
 | OEnter (i : N)
 | OExit (i : N)
 | ORecord (i : N) (vals : fields)
-| OEvent (e : event) (p : pspec).
+| OEvent (e : event) (p : pspec)
+| OClose (i : N) (busy idle : bytes).        (* the last handle is dropped, nothing else refers to the span: it closes *)
 
 Fixpoint remove_first (i : N) (l : list N) : list N :=
   match l with
@@ -548,25 +603,53 @@ Fixpoint update_span (i : N) (f : span_st -> span_st) (l : list (N * span_st)) :
   | [] => []
   | (j, s) :: r => if i =? j then (j, f s) :: r else (j, s) :: update_span i f r
   end.
+Definition remove_span (i : N) (l : list (N * span_st)) : list (N * span_st) :=
+  filter (fun p => negb (i =? fst p)) l.
+
+(** the state after one operation (the collector's view: Layered calls the registry first, the fmt layer second) *)
+Definition next (c : cfg) (st : state) (x : op) : state :=
+  match x with
+  | ONew i m p vals =>
+      let parent := match p with PCurrent => current st | PRoot => None | PExplicit j => Some j end in
+      {| spans := spans st ++ [(i, {| sp_meta := m; sp_parent := parent; sp_fields := visit_span [] (eff c vals) |})];
+         stack := stack st |}
+  | OEnter i => {| spans := spans st; stack := i :: stack st |}
+  | OExit i => {| spans := spans st; stack := remove_first i (stack st) |}
+  | ORecord i vals =>
+      {| spans := update_span i (fun s => {| sp_meta := sp_meta s; sp_parent := sp_parent s;
+                                             sp_fields := add_fields c (sp_fields s) (eff c vals) |}) (spans st);
+         stack := stack st |}
+  | OEvent _ _ => st
+  | OClose i _ _ => {| spans := remove_span i (spans st); stack := stack st |}
+  end.
+
+(** the lines one operation writes: lifecycle records see the state AFTER the registry's part of new / enter / exit
+    (the new span exists; the entered span is current; the exited span no longer is) and BEFORE the span's removal at
+    close *)
+Definition emit (c : cfg) (o : opts) (en : env) (st : state) (x : op) : list bytes :=
+  match x with
+  | ONew i _ _ _ => life_lines c o en (next c st x) i (o_new o) "new" None
+  | OEnter i => life_lines c o en (next c st x) i (o_enter o) "enter" None
+  | OExit i => life_lines c o en (next c st x) i (o_exit o) "exit" None
+  | ORecord _ _ => []
+  | OEvent e p => [render_line (event_record c o en st e p)]
+  | OClose i busy idle => life_lines c o en st i (o_close o) "close" (if has_timer o then Some (busy, idle) else None)
+  end.
 
 Definition step (c : cfg) (o : opts) (en : env) (st : state) (x : op) : state * list bytes :=
-  match x with
-  | ONew i name p vals =>
-      let parent := match p with PCurrent => current st | PRoot => None | PExplicit j => Some j end in
-      ({| spans := spans st ++ [(i, {| sp_name := name; sp_parent := parent; sp_fields := visit_span [] vals |})];
-          stack := stack st |}, [])
-  | OEnter i => ({| spans := spans st; stack := i :: stack st |}, [])
-  | OExit i => ({| spans := spans st; stack := remove_first i (stack st) |}, [])
-  | ORecord i vals =>
-      ({| spans := update_span i (fun s => {| sp_name := sp_name s; sp_parent := sp_parent s;
-                                              sp_fields := add_fields c (sp_fields s) vals |}) (spans st);
-          stack := stack st |}, [])
-  | OEvent e p => (st, [render_line (event_record c o en st e p)])
-  end.
+  (next c st x, emit c o en st x).
 
 Fixpoint run_from (c : cfg) (o : opts) (en : env) (st : state) (ops : list op) : list bytes :=
   match ops with
   | [] => []
-  | x :: r => let (st', out) := step c o en st x in out ++ run_from c o en st' r
+  | x :: r => emit c o en st x ++ run_from c o en (next c st x) r
   end.
 Definition run (c : cfg) (o : opts) (en : env) (ops : list op) : list bytes := run_from c o en init_state ops.
+
+(** per operation, for the driver: the lines each operation wrote *)
+Fixpoint run_ops_from (c : cfg) (o : opts) (en : env) (st : state) (ops : list op) : list (list bytes) :=
+  match ops with
+  | [] => []
+  | x :: r => emit c o en st x :: run_ops_from c o en (next c st x) r
+  end.
+Definition run_ops (c : cfg) (o : opts) (en : env) (ops : list op) : list (list bytes) := run_ops_from c o en init_state ops.
